@@ -407,7 +407,7 @@ PROPS = {
         "assumptions": ["a JSON null in place of an object is not claimed either way", "signed or zero-padded kind numbers inside an a value are not claimed either way"],
     },
     "C01": {
-        "lean_modules": ["MocProps.C01", "MocProps.C01Sig"], "theorem_files": ["MocProps/C01.lean", "MocProps/C01Sig.lean"],
+        "lean_modules": ["MocProps.C01", "MocProps.C01Sig", "MocProps.C01Curve"], "theorem_files": ["MocProps/C01.lean", "MocProps/C01Sig.lean", "MocProps/C01Curve.lean"],
         "gen_groups": ["Serialize"],
         "n_quick": 8000, "n_thorough": 40000, "thorough_seeds": 2, "timeout": 7000,
         "monitors": ["canonical", "authentic"],
@@ -424,7 +424,7 @@ PROPS = {
                       "signed event verifies and that altering a signed field changes the hash / breaks the signature are cryptographic facts: validated on every generated signature and "
                       "alteration, not proved. The signature verdict is no longer taken from the implementation's library: MocModel/Bip340.lean is an executable BIP-340 (reference algorithm and a "
                       "Jacobian fast version, checked against the BIP's vectors and against each other), verifyFull_true_iff / verifyFull_true_bip340 state Verify end to end (Lean SHA-256, Lean "
-                      "signature check), and the monitors judge the implementation against the BIP itself. The correspondence found that btcec v2.3.4's ParseSignature does not reject s >= n (it is "
+                      "signature check), and the monitors judge the implementation against the BIP itself. Arithmetic facts proved about the Lean BIP-340 (C01Curve): powMod is modular exponentiation (powMod_spec), the inverse is a^(p-2) mod p (inv_spec), a point returned by lift_x has the requested x < p, lies on y^2 = x^3 + 7 (mod p) and has an even y < p (liftX_sound, neg_sq), hence every accepted public key is the x coordinate of a curve point (verifyRef_pubkey_on_curve). The correspondence found that btcec v2.3.4's ParseSignature does not reject s >= n (it is "
                       "reduced mod n): modelled as it is (verifyLib, verifyLib_eq_of_s_lt, out_of_range_s_window: fewer than 2^129 of 2^256 values of s, no such signature can be constructed "
                       "without breaking the scheme); an accepted out-of-range signature would be reported as inauthentic-accepted.",
         "level_note": "Trusted: Lean kernel + standard axioms; go2lean; harness/driver; crypto/sha256 and btcec Schnorr (both cross-checked by the Lean implementations on every case that reaches them), encoding/hex; "
